@@ -1222,6 +1222,13 @@ def m_cmp(I, st, callee, argv, depth, t, dty):
     `if a == b {..} else if a < b {..} else {..}` chain would record"""
     a = freeze(st, deref_val(st, argv[0]))
     b = freeze(st, deref_val(st, argv[1]))
+    def known_len(x):
+        if x is not None and x[0] == 'app' and x[1] == 'len' and len(x[2]) == 1:
+            n = tlen(x[2][0])
+            if n is not None:
+                return Int(n)
+        return x
+    a, b = known_len(a), known_len(b)
     partial = callee['name'] == 'partial_cmp'
     wrap = (lambda o: Some(o)) if partial else (lambda o: o)
     O = lambda n: Adt(ORDERING, n, [])
@@ -1319,6 +1326,31 @@ def m_ga_generate(I, st, callee, argv, depth, t, dty):
         for s2, y in I.apply_callable(s, argv[0], [Int(i)], depth, t):
             yield from go(s2, i + 1, acc + [y])
     yield from go(st, 0, [])
+
+
+@model('core::slice::contains')
+def m_slice_contains(I, st, callee, argv, depth, t, dty):
+    """`[0x02, 0x03].contains(&x)`: membership of a run-time byte in a constant set, recorded like a `match` on that byte"""
+    hay = bytes_of(st, argv[0])
+    needle = freeze(st, deref_val(st, argv[1]))
+    if hay is not None and hay[0] == 'bytes' and needle is not None:
+        vals = sorted(set(hay[1]))
+        if needle[0] == 'int':
+            yield st, Int(int(needle[1] in vals))
+            return
+        if needle in st.assume and isinstance(st.assume[needle], int) and st.assume[needle] >= 0:
+            yield st, Int(int(st.assume[needle] in vals))
+            return
+        for v in vals:
+            s2 = st.copy()
+            s2.assume[needle] = v
+            s2.ev('assume', needle, v)
+            yield s2, Int(1)
+        st.assume[needle] = -1
+        st.ev('assume', needle, ('not', tuple(vals)))
+        yield st, Int(0)
+        return
+    yield st, App('core::slice::contains', freeze(st, hay), needle)
 
 
 @model('core::ops::bit::BitXorAssign::bitxor_assign')
